@@ -660,7 +660,8 @@ class GooFitPyChain(AmplitudeChain):
         """
         spin_factors = self.spinfactors
 
-        intro = "spin_factor_list.append((\n"
+        # A list: a single entry in round brackets would not be a sequence
+        intro = "spin_factor_list.append([\n"
         factor = []
         for structure in self.list_structure(final_states):
             if not spin_factors:
@@ -673,7 +674,7 @@ class GooFitPyChain(AmplitudeChain):
                     factor.append(
                         f'        SpinFactor("SF", SF_4Body.{spin_factor.name:37}, {structure_list})'
                     )
-        exit_ = "))\n"
+        exit_ = "])\n"
         return intro + ",\n".join(factor) + exit_
 
     def make_linefactor(self, final_states):
